@@ -22,6 +22,7 @@ var c19Specs = []famSpec{
 	{Family: "rect-soup", Pool: 40000, PoolQ: 2000},
 	{Family: "rect-cavity", Pool: 40000, PoolQ: 2000},
 	{Family: "touching", FreshQ: 2000, FreshT: 40000},
+	{Family: "stacked", FreshQ: 1000, FreshT: 20000},
 	{Family: "nested-small", Pool: 30000, PoolQ: 1500},
 	{Family: "nested", FreshQ: 1500, FreshT: 50000},
 	{Family: "rectilinear", FreshQ: 1500, FreshT: 50000},
@@ -88,10 +89,16 @@ func c19Run(ctx *run.Ctx, id run.CaseID) {
 		sub := frName(fr)
 		if !ctx.Guard(digest, sub, in, func() {
 			U, rec, _ = execBool(subj, clp, clip.Union, fr, false)
-			I = clip.BooleanOpPaths64(clip.Intersection, subj, clp, fr)
-			D = clip.BooleanOpPaths64(clip.Difference, subj, clp, fr)
+			if pathByPath(subj, clp) { // one case in four: every operation on an engine fed through AddPath, path by path
+				I, _, _ = execBool(subj, clp, clip.Intersection, fr, false)
+				D, _, _ = execBool(subj, clp, clip.Difference, fr, false)
+				X, _, _ = execBool(subj, clp, clip.Xor, fr, false)
+			} else {
+				I = clip.BooleanOpPaths64(clip.Intersection, subj, clp, fr)
+				D = clip.BooleanOpPaths64(clip.Difference, subj, clp, fr)
+				X = clip.BooleanOpPaths64(clip.Xor, subj, clp, fr)
+			}
 			D2 = clip.BooleanOpPaths64(clip.Difference, clp, subj, fr)
-			X = clip.BooleanOpPaths64(clip.Xor, subj, clp, fr)
 			S1 = clip.UnionPaths64(subj, fr)
 			C1 = clip.UnionPaths64(clp, fr)
 		}) {
